@@ -266,6 +266,12 @@ fn explore(ctx: &Ctx, label: &str, alpha: &[Req], max_depth: Option<usize>, alph
 
 /// value-level lazy fields: every sequence of <= 3 getters gives the answers of a fresh value
 fn value_level(ctx: &Ctx) {
+  fn fresh_day(d: &LunarDay) -> LunarDay {
+    LunarDay::from_ymd(d.get_year(), d.get_month(), d.get_day())
+  }
+  fn fresh_hour(h: &LunarHour) -> LunarHour {
+    LunarHour::from_ymd_hms(h.get_year(), h.get_month(), h.get_day(), h.get_hour(), h.get_minute(), h.get_second())
+  }
   let getters: Vec<(&str, fn(&LunarDay) -> String)> = vec![
     ("get_solar_day", |d| d.get_solar_day().to_string()),
     ("get_sixty_cycle_day", |d| d.get_sixty_cycle_day().to_string()),
@@ -282,6 +288,13 @@ fn value_level(ctx: &Ctx) {
     ("get_hours[12].get_solar_time", |d| d.get_hours()[12].get_solar_time().to_string()),
     ("next(1).next(-1).get_solar_day", |d| d.next(1).next(-1).get_solar_day().to_string()),
     ("get_lunar_month.get_days[last].get_solar_day", |d| d.get_lunar_month().get_days().last().unwrap().get_solar_day().to_string()),
+    // equality and order against a fresh value of the same / the next day must not depend on which lazy fields are filled
+    ("== fresh / fresh ==", |d| format!("{} {}", *d == fresh_day(d), fresh_day(d) == *d)),
+    ("order vs fresh next(1)", |d| {
+      let n = fresh_day(d).next(1);
+      format!("{} {} {} {}", d.is_before(n.clone()), d.is_after(n.clone()), n.is_before(d.clone()), n.is_after(d.clone()))
+    }),
+    ("get_solar_day.get_lunar_day == self", |d| (d.get_solar_day().get_lunar_day() == *d).to_string()),
   ];
   let hgetters: Vec<(&str, fn(&LunarHour) -> String)> = vec![
     ("get_solar_time", |h| h.get_solar_time().to_string()),
@@ -295,76 +308,88 @@ fn value_level(ctx: &Ctx) {
     ("get_lunar_day.get_solar_day", |h| h.get_lunar_day().get_solar_day().to_string()),
     ("get_lunar_day.next(2).get_solar_day", |h| h.get_lunar_day().next(2).get_solar_day().to_string()),
     ("get_twelve_star", |h| h.get_twelve_star().to_string()),
+    // the day reached through the hour must answer like a fresh day (day-level pillars, duty)
+    ("get_lunar_day.get_sixty_cycle_day", |h| h.get_lunar_day().get_sixty_cycle_day().to_string()),
+    ("get_lunar_day.get_duty", |h| h.get_lunar_day().get_duty().to_string()),
+    ("== fresh / order vs fresh next(1)", |h| {
+      let n = fresh_hour(h).next(1);
+      format!("{} {} {} {} {}", *h == fresh_hour(h), h.is_before(n.clone()), h.is_after(n.clone()), n.is_before(h.clone()), n.is_after(h.clone()))
+    }),
+    ("order vs fresh hour of the same day", |h| {
+      let o = LunarHour::from_ymd_hms(h.get_year(), h.get_month(), h.get_day(), 10, 0, 0);
+      format!("{} {} {} {}", h.is_before(o.clone()), h.is_after(o.clone()), o.is_before(h.clone()), o.is_after(h.clone()))
+    }),
   ];
-  let days: Vec<(isize, isize, usize)> = vec![(2020, -4, 1), (2020, 4, 30), (2021, 12, 29), (1582, 9, 18), (1582, 9, 19), (30, 1, 1), (9999, 11, 30), (2033, -11, 1), (2023, 2, 30), (1, 1, 1)];
-  let mut n: u64 = 0;
-  let mut st: u64 = 0;
-  for &(y, m, d) in &days {
-    let mk = || LunarDay::from_ymd(y, m, d);
-    if guard(mk).is_err() {
-      continue;
-    }
-    st += 1;
-    let fresh: Vec<String> = getters.iter().map(|g| guard(|| (g.1)(&mk())).unwrap_or_else(|_| "REFUSED".into())).collect();
-    let k = getters.len();
-    for a in 0..k {
-      for b in 0..=k {
-        for c in 0..=k {
-          if b == k && c != k {
-            continue;
-          }
-          let seq: Vec<usize> = [a, b, c].iter().cloned().filter(|&x| x < k).collect();
-          let v = mk();
-          for &g in &seq {
-            let got = guard(|| (getters[g].1)(&v)).unwrap_or_else(|_| "REFUSED".into());
-            n += 1;
-            if got != fresh[g] {
-              ctx.violation(
-                "value_memo",
-                format!("LunarDay({},{},{}) seq {:?}", y, m, d, seq.iter().map(|&x| getters[x].0).collect::<Vec<_>>()),
-                format!("getter {} answered '{}' after the sequence, '{}' on a fresh value", getters[g].0, got, fresh[g]),
-                vec!["value".into()],
-              );
+  // (2023,12,25) = 2024-02-04 (Lichun 16:27) and (2024,2,26) = 2024-04-04 (Qingming 15:02): term days, whose hours before the
+  // term instant carry another month (and year) pillar than the day does
+  let days: Vec<(isize, isize, usize)> = vec![(2020, -4, 1), (2020, 4, 30), (2021, 12, 29), (1582, 9, 18), (1582, 9, 19), (30, 1, 1), (9999, 11, 30), (2033, -11, 1), (2023, 2, 30), (1, 1, 1), (2023, 12, 25), (2024, 2, 26)];
+  // unit u = 5 * day + (0 = the day itself, 1..4 = hours 0, 1, 12, 23)
+  let done = par_chunks_n(ctx, THREADS, 0, days.len() * 5, 1, |ua, ub, l| {
+    for u in ua..ub {
+      let (y, m, d) = days[u / 5];
+      if guard(|| LunarDay::from_ymd(y, m, d)).is_err() {
+        continue;
+      }
+      l.states += 1;
+      if u % 5 == 0 {
+        let mk = || LunarDay::from_ymd(y, m, d);
+        let fresh: Vec<String> = getters.iter().map(|g| guard(|| (g.1)(&mk())).unwrap_or_else(|_| "REFUSED".into())).collect();
+        let k = getters.len();
+        for a in 0..k {
+          for b in 0..=k {
+            for c in 0..=k {
+              if b == k && c != k {
+                continue;
+              }
+              let seq: Vec<usize> = [a, b, c].iter().cloned().filter(|&x| x < k).collect();
+              let v = mk();
+              for &g in &seq {
+                let got = guard(|| (getters[g].1)(&v)).unwrap_or_else(|_| "REFUSED".into());
+                l.transitions += 1;
+                if got != fresh[g] {
+                  ctx.violation(
+                    "value_memo",
+                    format!("LunarDay({},{},{}) seq {:?}", y, m, d, seq.iter().map(|&x| getters[x].0).collect::<Vec<_>>()),
+                    format!("getter {} answered '{}' after the sequence, '{}' on a fresh value", getters[g].0, got, fresh[g]),
+                    vec!["value".into()],
+                  );
+                }
+              }
             }
           }
         }
-      }
-    }
-    for hh in [0usize, 1, 12, 23] {
-      let mkh = || LunarHour::from_ymd_hms(y, m, d, hh, 59, 59);
-      let fresh: Vec<String> = hgetters.iter().map(|g| guard(|| (g.1)(&mkh())).unwrap_or_else(|_| "REFUSED".into())).collect();
-      let k = hgetters.len();
-      st += 1;
-      for a in 0..k {
-        for b in 0..=k {
-          for c in 0..=k {
-            if b == k && c != k {
-              continue;
-            }
-            let seq: Vec<usize> = [a, b, c].iter().cloned().filter(|&x| x < k).collect();
-            let v = mkh();
-            for &g in &seq {
-              let got = guard(|| (hgetters[g].1)(&v)).unwrap_or_else(|_| "REFUSED".into());
-              n += 1;
-              if got != fresh[g] {
-                ctx.violation(
-                  "value_memo",
-                  format!("LunarHour({},{},{} {}h) seq {:?}", y, m, d, hh, seq.iter().map(|&x| hgetters[x].0).collect::<Vec<_>>()),
-                  format!("getter {} answered '{}' after the sequence, '{}' on a fresh value", hgetters[g].0, got, fresh[g]),
-                  vec!["value".into()],
-                );
+      } else {
+        let hh = [0usize, 1, 12, 23][u % 5 - 1];
+        let mkh = || LunarHour::from_ymd_hms(y, m, d, hh, 59, 59);
+        let fresh: Vec<String> = hgetters.iter().map(|g| guard(|| (g.1)(&mkh())).unwrap_or_else(|_| "REFUSED".into())).collect();
+        let k = hgetters.len();
+        for a in 0..k {
+          for b in 0..=k {
+            for c in 0..=k {
+              if b == k && c != k {
+                continue;
+              }
+              let seq: Vec<usize> = [a, b, c].iter().cloned().filter(|&x| x < k).collect();
+              let v = mkh();
+              for &g in &seq {
+                let got = guard(|| (hgetters[g].1)(&v)).unwrap_or_else(|_| "REFUSED".into());
+                l.transitions += 1;
+                if got != fresh[g] {
+                  ctx.violation(
+                    "value_memo",
+                    format!("LunarHour({},{},{} {}h) seq {:?}", y, m, d, hh, seq.iter().map(|&x| hgetters[x].0).collect::<Vec<_>>()),
+                    format!("getter {} answered '{}' after the sequence, '{}' on a fresh value", hgetters[g].0, got, fresh[g]),
+                    vec!["value".into()],
+                  );
+                }
               }
             }
           }
         }
       }
     }
-  }
-  let mut l = Local::default();
-  l.states = st;
-  l.transitions = n;
-  ctx.add(&l);
-  ctx.subspace("value-level lazy fields: every sequence of <= 3 of the 15 day / 11 hour observers (incl. next(n) after a getter filled the lazy fields) on 10 lunar days x (day + 4 hours), each answer compared with the answer of a fresh value", true, n);
+  });
+  ctx.subspace(&format!("value-level lazy fields: every sequence of <= 3 of the {} day / {} hour observers (incl. next(n) after a getter filled the lazy fields, equality / order against fresh values, the day reached through an hour) on {} lunar days (two of them Jie days) x (day + 4 hours), each answer compared with the answer of a fresh value", getters.len(), hgetters.len(), days.len()), done, (days.len() * 5) as u64);
 }
 
 // ---------------------------------------------------------------------------------------------
